@@ -2,6 +2,7 @@ package engines
 
 import (
 	"fmt"
+	"syscall"
 	"sort"
 	"strings"
 	"testing"
@@ -60,6 +61,8 @@ type apiObs struct {
 	rendered   string
 	reqUnknown bool     // the addressed request id is not a recorded run of the DAG
 	viewBefore, viewAfter *model.Status // the addressed run as the API's own lookup by request id shows it
+	vinv, vret            uint64        // stamps around the two lookups
+	diskFaults            int           // injected write failures while the action was being served
 	start      *cliProc // the process spawned for an accepted start
 }
 
@@ -143,6 +146,20 @@ func apisim(t *testing.T, tp *simrt.Tape, opts RunOpts) *Outcome {
 		}
 		return nil
 	}
+	// fault "no_space": in a third of the scenarios some of the server's own writes to history records fail
+	// with ENOSPC (nothing written): the edit is then refused and must have changed nothing — neither on disk
+	// nor in what the server itself shows afterwards
+	nDiskFaults := 0
+	if chance(tp, 1, 3) {
+		cfg.FaultPlan = func(op *simrt.OpInfo) simrt.Fault {
+			if op.Proc.Name != "server" || op.Kind != "write" || !strings.HasSuffix(op.Path, ".dat") || !tp.Chance(simrt.SFault, 1, 2) {
+				return simrt.Fault{}
+			}
+			op.Proc.W.CountFault("no_space")
+			nDiskFaults++
+			return simrt.Fault{Kind: simrt.FErr, Errno: syscall.ENOSPC}
+		}
+	}
 	killAt := map[int]uint64{} // pid -> seq at which the harness killed it
 	res := simrt.Run(t, cfg, func(w *simrt.World) {
 		cw = newCLIWorld(w, tp)
@@ -214,6 +231,8 @@ func apisim(t *testing.T, tp *simrt.Tape, opts RunOpts) *Outcome {
 					}
 					return st
 				}
+				o.vinv = w.NextSeq()
+				o.diskFaults = -nDiskFaults
 				o.viewBefore = view()
 				o.before = dump()
 				o.inv, o.invAt = w.NextSeq(), w.Now()
@@ -221,6 +240,8 @@ func apisim(t *testing.T, tp *simrt.Tape, opts RunOpts) *Outcome {
 				o.ret, o.retAt = w.NextSeq(), w.Now()
 				o.after = dump()
 				o.viewAfter = view()
+				o.vret = w.NextSeq()
+				o.diskFaults += nDiskFaults
 				obs = append(obs, o)
 				// settle: asynchronous effects of this action (the spawned start) happen before the next one
 				simrt.Sleep(time.Duration(pick(tp, 400, 400, 900, 2500)) * time.Millisecond)
@@ -403,6 +424,16 @@ func apisim(t *testing.T, tp *simrt.Tape, opts RunOpts) *Outcome {
 			if len(changed) > 0 {
 				chk.viol("refused-action-changed-state", a.Kind+"/"+why, "%s (%s) was answered %d but changed %v", a.Kind, why, o.resp.Code, changed)
 			}
+			// ... nor what the server itself shows of the addressed run
+			runAliveAroundViews := false
+			if pid, ok := pidOfReq[o.reqID]; ok {
+				if sp, ok := spawnSeq[pid]; ok && sp < o.vret && end(pid) > o.vinv {
+					runAliveAroundViews = true // the run's own process changes what is shown of it
+				}
+			}
+			if o.viewBefore != nil && o.viewAfter != nil && !runAliveAroundViews && statusVector(o.viewBefore) != statusVector(o.viewAfter) {
+				chk.viol("refused-action-changed-view", a.Kind+"/"+why, "%s (%s) was answered %d %s, the record on disk is unchanged, but the server now shows run %s as %s (before: %s)", a.Kind, why, o.resp.Code, o.resp.Msg, short(o.reqID), statusVector(o.viewAfter), statusVector(o.viewBefore))
+			}
 		}
 		malformed := ""
 		switch {
@@ -509,7 +540,10 @@ func apisim(t *testing.T, tp *simrt.Tape, opts RunOpts) *Outcome {
 				}
 			default:
 				if !o.resp.ok() {
-					if state == "idle" {
+					if o.diskFaults > 0 {
+						bump(out, "edit_refused_after_write_fault")
+					}
+					if state == "idle" && o.diskFaults == 0 {
 						chk.viol("edit-refused-while-idle", reqSelName(a.ReqSel), "%s of step %s in run %s of %q was answered %d %s although no run was in progress", a.Kind, o.step, short(o.reqID), d.File, o.resp.Code, o.resp.Msg)
 					}
 					refusedMustHoldStill(state)
